@@ -22,7 +22,7 @@ func init() {
 	register(&Prop{
 		ID:    "C16",
 		Level: "exploration",
-		Rule:  "complete enumeration of the configuration space: Alphabet() for every exported class flag and named union and for all 32 flag subsets; constructor defaults of NewCharRecipe/NewWLRecipe (fields and behaviour); MaxTrials/MaxFailRate at process start; the exact output distribution and declared entropy of each of the 7 separator presets (explorer over every draw); every entry of AgileWords/AgileSyllables against the lines of testdata/*.txt read at run time. evaluations = library calls observed; distinct_nontrivial = distinct configuration items checked (flag sets, presets, defaults, list entries counted per list as one item each plus per-entry comparisons in the counters)",
+		Rule:  "complete enumeration of the configuration space: Alphabet() for every exported class flag and named union and for all 32 flag subsets; constructor defaults of NewCharRecipe/NewWLRecipe (fields and behaviour); MaxTrials/MaxFailRate at process start and as behaviour (refusal border 0.0984 for requirements given as custom sets, as class flags and as both; exactly k failing candidates then a valid one for k in {1,2,198,199,200,201}; a failing first candidate for lengths 2..1000); the exact output distribution and declared entropy of each of the 7 separator presets (explorer over every draw); every entry of AgileWords/AgileSyllables against the lines of testdata/*.txt read at run time. evaluations = library calls observed; distinct_nontrivial = distinct configuration items checked (flag sets, presets, defaults, list entries counted per list as one item each plus per-entry comparisons in the counters)",
 		Assumptions: []string{
 			"documented class strings written out independently in harness/oracle",
 			"preset distributions are exact modulo C01 (each bounded draw uniform)",
